@@ -33,9 +33,35 @@ def main():
                       'exit': r.returncode, 'violation_lines': lines[:3], 'seconds': round(time.time() - t0, 1),
                       'with_input': any('no-failing-input-found' not in l for l in lines)}
             print(n, 'detected' if out[n]['detected'] else 'MISSED (exit %d)' % r.returncode, out[n]['seconds'])
+            # keep the first failing input as a corpus case: it runs first in every later check, whatever the seed
+            for l in lines:
+                if 'no-failing-input-found' in l:
+                    continue
+                rp = os.path.join(HERE, l.split('replay=')[1].split()[0])
+                try:
+                    rep = json.load(open(rp))
+                except Exception:
+                    continue
+                if rep.get('case') is not None:
+                    cdir = os.path.join(HERE, 'corpus', prop)
+                    os.makedirs(cdir, exist_ok=True)
+                    case = {k: v for k, v in rep['case'].items() if not k.startswith('_')}
+                    json.dump({'origin': 'seeded change %s: %s' % (n, str(rep.get('broken'))[:300]), 'case': case},
+                              open(os.path.join(cdir, n + '.json'), 'w'), indent=1, sort_keys=True, default=str)
+                    out[n]['corpus_case'] = 'corpus/%s/%s.json' % (prop, n)
+                    break
         finally:
             sh('git', '-C', REPO, 'checkout', '--', '.')
             sh('git', '-C', REPO, 'clean', '-fdq', '--', 'dit')
+        # a corpus case must hold on the unchanged tree (a minimised case can be ill-formed for the harness itself)
+        cc = out[n].get('corpus_case')
+        if cc:
+            rr = sh(os.path.join(HERE, 'check'), prop, '--replay', os.path.join(HERE, cc), cwd=HERE)
+            if rr.returncode != 0:
+                os.remove(os.path.join(HERE, cc))
+                out[n]['corpus_case'] = None
+                out[n]['corpus_case_rejected'] = (rr.stdout + rr.stderr)[-300:]
+                print(n, 'corpus case fails on the unchanged tree: dropped')
         json.dump(out, open(path, 'w'), indent=1, sort_keys=True)
     assert sh('git', '-C', REPO, 'status', '--porcelain').stdout.strip() == '', '/repo left dirty'
     missed = [n for n in names if out[n]['detected'] is False]
